@@ -50,6 +50,14 @@ def gen_probe_project(rng, binp, tries=40, opts=None):
             for (ns, l), tree in p["files"].items():
                 tree["o"].append(["longkey", f"[{l}]" + gen.print_src(gen.gen_long_src(rng, n1))])
                 tree["o"].append(["longkey2", f"[{l}]" + gen.print_src(gen.gen_long_src(rng, n2))])
+        if o.get("literal_keys", True):
+            # number / boolean / float literals of one type, null or absent in some non-default locales (literal accessors fall back too)
+            for (ns, l), tree in p["files"].items():
+                for k, v in (("litu", proj.U(5)), ("liti", proj.I(-7)), ("litf", proj.F("2.0")), ("litb", True)):
+                    r = rng.below(5) if l != p["default"] else 9
+                    if r == 0:
+                        continue
+                    tree["o"].append([k, None if r == 1 else v])
         if o.get("ordinal_key", True):
             # an ordinal and a cardinal plural with every form, in every locale (string and view back-ends must use the key's rule type)
             for (ns, l), tree in p["files"].items():
@@ -243,6 +251,7 @@ def build_probes(rng, p, res, oracle, per_key=3, flavours=("string", "display", 
                                 cat_tbl[(rule, Fraction(key[2:]))] = f
                         return Env(vars=var_vals, var_default=("?", ""), var_fmt=False, comp=('<span data-c="', '">', "</span>", ""), close_tag=False,
                                    tags=comp_tags, counts={k: count_value(v) for k, v in count_of.items()}, count_default=0, cats=cat_tbl)
+                    plain_vars = [(n, v) for n, v, is_count in args_rs if not is_count and v.startswith('"') and n.isidentifier() and not n.startswith("r#")]
                     key_rs = ".".join(rust_ident(k) for k in path)
                     if ns is not None:
                         key_rs = rust_ident(ns) + "." + key_rs
@@ -286,6 +295,14 @@ def build_probes(rng, p, res, oracle, per_key=3, flavours=("string", "display", 
                             else:
                                 inner = ", ".join(["__i18n", key_rs] + vargs + comps_rs)
                                 expr = f"with_ctx({loc_rs}, |__i18n| {mac}({inner}).to_string())"
+                        elif fl == "string" and a == per_key - 1 and len(plain_vars) >= 2:
+                            # argument values that mention each other's names: `x = y, y = x` with locals x, y (the values are
+                            # evaluated in the caller's scope, all of them before any is bound)
+                            (n1, v1), (n2, v2) = plain_vars[0], plain_vars[1]
+                            sw = [f"{n} = {n2 if n == n1 else n1 if n == n2 else v}" if not is_count and n in (n1, n2) else f"{n} = {v}"
+                                  for n, v, is_count in args_rs]
+                            inner = ", ".join([loc_rs, key_rs] + sw + comps_rs)
+                            expr = f"{{ let {n1} = {v2}; let {n2} = {v1}; td_string!({inner}).to_string() }}"
                         elif fl == "string":
                             expr = f"td_string!({allargs}).to_string()"
                         elif fl == "display":
